@@ -245,6 +245,27 @@ func runC03(c *Ctx) {
 		})
 	}
 
+	// the message commands end a transaction only when there is one: with no accepted sender, or no accepted
+	// recipient, DATA/BDAT reach neither reset() (Reset callback, sender dropped) nor a deferred one — whatever else
+	// is wrong with the command (a size over the limit is answered first in a reordered handleBdat)
+	for _, fn := range []string{"(*Conn).handleData", "(*Conn).handleBdat"} {
+		f := c.A.Func(fn)
+		if f == nil {
+			continue
+		}
+		allInstrs(f, func(in ssa.Instruction) {
+			cc := callCommon(in)
+			if cc == nil {
+				return
+			}
+			if g := staticCallee(cc); g == nil || funcName(g) != "(*Conn).reset" {
+				return
+			}
+			c.obUnreach("reset() without an accepted sender", in, aNoFrom)
+			c.obUnreach("reset() without an accepted recipient", in, `Conn.fromReceived == true`, aNoRcpt)
+		})
+	}
+
 	R.Rule("R-refusal-5xx", "E1 must-under", "each out-of-order state leads to a 5xx reply (452 for the recipient limit) on every path", 9)
 	type ref struct {
 		fn    string
